@@ -482,6 +482,7 @@ class Sim:
         self.current = d
         CURRENT = self
         tracer = self._make_tracer() if self.trace_files else None
+        opcode_codes = _opcode_enable(self) if (self.trace_files and self.trace_opcodes) else None
         self._wd_stop = False
         self.spin_info = None
         wd = None
@@ -497,6 +498,8 @@ class Sim:
             if tracer:
                 sys.settrace(None)
             self.shutdown()
+            if opcode_codes:
+                _opcode_disable(opcode_codes)
             CURRENT = None
 
     def _watchdog(self):
@@ -577,36 +580,98 @@ class Sim:
                         sim.line_hook(tag, frame)
                     sim.preempt_point()
                 return local
-        elif self.trace_opcodes:
-            import dis
-            stores = frozenset(dis.opmap[n] for n in ("STORE_ATTR", "STORE_SUBSCR", "STORE_GLOBAL", "DELETE_SUBSCR",
-                                                      "DELETE_ATTR") if n in dis.opmap)
-
-            def local(frame, event, arg):
-                if event == "line":
-                    sim.preempt_point()
-                elif event == "opcode":
-                    if frame.f_code.co_code[frame.f_lasti] in stores:
-                        sim.preempt_point_store()
-                return local
         else:
             def local(frame, event, arg):
                 if event == "line":
                     sim.preempt_point()
                 return local
 
-        opc = bool(self.trace_opcodes)
         funcs = self.trace_funcs
 
         def glob(frame, event, arg):
             if frame.f_code.co_filename in files and (funcs is None or frame.f_code.co_name in funcs):
-                if opc:
-                    frame.f_trace_opcodes = True
                 return local
             return None
 
         self._tracer = glob
         return glob
+
+
+# ---------------------------------------------------------------- bytecode-level pre-emption (PEP 669)
+_MON_TOOL = 4
+_mon_ready = [False]
+
+
+def _codes_of(files, funcs):
+    """Every code object (functions, methods, nested functions) defined in the given source files."""
+    import types
+    seen, out = set(), []
+
+    def add(code):
+        if id(code) in seen or code.co_filename not in files:
+            return
+        seen.add(id(code))
+        if funcs is None or code.co_name in funcs:
+            out.append(code)
+        for c in code.co_consts:
+            if isinstance(c, types.CodeType):
+                add(c)
+
+    def walk(obj, depth=0):
+        f = getattr(obj, "__func__", obj)
+        f = getattr(f, "fget", f) if isinstance(f, property) else f
+        code = getattr(f, "__code__", None)
+        if isinstance(code, types.CodeType):
+            add(code)
+        if isinstance(obj, type) and depth < 3:
+            for v in list(vars(obj).values()):
+                walk(v, depth + 1)
+                if isinstance(v, (staticmethod, classmethod)):
+                    walk(v.__func__, depth + 1)
+                if isinstance(v, property):
+                    for g in (v.fget, v.fset, v.fdel):
+                        if g is not None:
+                            walk(g, depth + 1)
+    for m in list(sys.modules.values()):
+        if getattr(m, "__file__", None) in files:
+            for v in list(vars(m).values()):
+                if getattr(v, "__module__", None) == m.__name__ or isinstance(v, types.FunctionType):
+                    walk(v)
+    out.sort(key=lambda c: (c.co_filename, c.co_firstlineno, c.co_name))
+    return out
+
+
+def _opcode_enable(sim):
+    """Instrument the traced functions for INSTRUCTION events up front (so that the events do not depend on what an
+    earlier run in this process happened to execute) and route stores to sim.preempt_point_store()."""
+    import dis
+    mon = sys.monitoring
+    stores = frozenset(dis.opmap[n] for n in ("STORE_ATTR", "STORE_SUBSCR", "STORE_GLOBAL", "DELETE_SUBSCR", "DELETE_ATTR")
+                       if n in dis.opmap)
+    if not _mon_ready[0]:
+        mon.use_tool_id(_MON_TOOL, "verif-sim")
+        _mon_ready[0] = True
+
+    def on_instruction(code, offset):
+        s = CURRENT
+        if s is not None and code.co_code[offset] in stores:
+            s.preempt_point_store()
+
+    mon.register_callback(_MON_TOOL, mon.events.INSTRUCTION, on_instruction)
+    codes = _codes_of(sim.trace_files, sim.trace_funcs)
+    for c in codes:
+        mon.set_local_events(_MON_TOOL, c, mon.events.INSTRUCTION)
+    return codes
+
+
+def _opcode_disable(codes):
+    mon = sys.monitoring
+    for c in codes:
+        try:
+            mon.set_local_events(_MON_TOOL, c, 0)
+        except Exception:
+            pass
+    mon.register_callback(_MON_TOOL, mon.events.INSTRUCTION, None)
 
 
 def where_parked(task):
